@@ -498,7 +498,7 @@ class _Plain:
 
 # ------------------------------------------------------------------ stream: sums, typed
 
-def sum_checks(rep, rng, case, desc, variants):
+def sum_checks(rep, rng, case, desc, variants, n, line, model):
     """`variants`: list of (case_i, diagram_i, ref_i) of the same type dom -> cod interpreted by ONE
     functor `F` (rigid) or evaluated directly (tensor); variants[0] is the case itself."""
     from discopy import monoidal, tensor
@@ -550,7 +550,6 @@ def sum_checks(rep, rng, case, desc, variants):
     def tag(n):
         return "%d_terms" % n if n < 2 else "2+_terms"
 
-    n = rng.choice([0, 0, 0, 1, 1, 2, 3])
     route = rng.choice(routes(n))
     rep.count("sums:terms:%d" % n)
     rep.count("sums:route:%s:%s" % (tag(n), route))
@@ -562,7 +561,16 @@ def sum_checks(rep, rng, case, desc, variants):
     # (1) the functor on the formal sum: a Tensor F(dom) -> F(cod), the entrywise sum of the terms
     ok, val = chk.call("sum_typed:functor", lambda: F(s), **more)
     if ok:
-        chk.typed("sum_typed:functor:" + tag(n), val, fdom, fcod, want, **more)
+        good = chk.typed("sum_typed:functor:" + tag(n), val, fdom, fcod, want, **more)
+        # correspondence `sum-eval`: the model's Sum branch (TFunctor.callSum) on the same terms
+        if good:
+            try:
+                real = tl.canon_tensor(val)
+                rep.count("sums:model_compared")
+                if real != model:
+                    rep.disagree("sum-eval", dict(desc, line=line[:3000], **more), real[:3000], model[:3000])
+            except tl.Inexact:
+                rep.count("oracle.skipped:inexact")
     # (2) tensor.Sum.eval
     if fam == "tensor" and hasattr(s, "eval"):
         ok, val = chk.call("sum_typed:Sum.eval", lambda: s.eval(), **more)
